@@ -224,6 +224,11 @@ def make_inputs(ctx, drv, quick):
         tree, info = cg.tree_of_bytes(data)
         ana.append(inp.add("doc", data, tree=tree, exact=bool(info and info["exact"]) if tree else False, counts=False,
                            cls="anadoc", tokc=False, sens=cg.has_removable_blank(tree) if tree else None))
+    for k in range(8 if quick else 60):
+        data = cg.consistent_document(rng)
+        tree, info = cg.tree_of_bytes(data)
+        ana.append(inp.add("doc", data, tree=tree, exact=True, counts=False, cls="consistent", tokc=False,
+                           sens=cg.has_removable_blank(tree)))
     # ---- E. import graphs with math (files on disk under the work directory)
     graphs = []
     gdir = os.path.join(ctx.workdir, "imp")
@@ -244,6 +249,31 @@ def make_inputs(ctx, drv, quick):
         oid = inp.add("doc", files[origin], tree=trees[origin], exact=True, counts=False, cls="origin", tokc=False,
                       sens=cg.has_removable_blank(trees[origin]))
         graphs.append(dict(dir=did, origin=oid, trees=trees, info=info))
+    # ---- G. inputs drawn to INTERFERE with another input on the same service instance
+    near = {}        # doc id -> id of a near-copy (same names everywhere, other definitions)
+    attr1x = []      # 2.0 documents carrying 1.x-only / unknown attributes
+    for d in list(docs) + list(ana):
+        t = inp.meta[d].get("tree")
+        if t is None:
+            continue
+        for mild in ((True, False) if d in ana else (rng.random() < 0.6,)):
+            t2 = cg.near_copy(t, rng, mild=mild)
+            nid = inp.add("doc", cg.render_doc(t2), tree=t2, exact=inp.meta[d].get("exact", False), counts=False,
+                          cls="nearcopy", of=d, tokc=inp.meta[d].get("tokc"), sens=cg.has_removable_blank(t2))
+            near.setdefault(d, []).append(nid)
+        if inp.meta[d].get("cls") == "gendoc" and not inp.meta[d].get("dirty") and rng.random() < 0.4:
+            t3 = cg.with_1x_attributes(t, rng)
+            attr1x.append(inp.add("doc", cg.render_doc(t3), tree=t3, exact=True, counts=False, cls="attr1x",
+                                  tokc=inp.meta[d].get("tokc"), sens=cg.has_removable_blank(t3)))
+    onex = [inp.add("doc", cg.onex_document(rng, v), tree=None, exact=False, counts=False, cls="onex", tokc=False, sens=None)
+            for v in (["1.0", "1.1"] * (3 if quick else 15))]
+    for rid in res:
+        data = [dd for i, k, dd in inp.rows if i == rid][0]
+        if b"cellml/1.0#" in data or b"cellml/1.1#" in data:
+            onex.append(rid)
+    warn_docs = [inp.add("doc", b, tree=cg.tree_of_bytes(b)[0], exact=True, counts=False, cls="warndoc", tokc=False, sens=False)
+                 for b in cg.WARNING_DOCS]
+    empty_doc = inp.add("doc", b"", tree=None, exact=False, counts=False, cls="emptydoc", tokc=False, sens=None)
     # ---- F. bad inputs
     bad_docs = [inp.add("doc", b, tree=None, exact=False, counts=False, cls="baddoc", tokc=True, sens=None) for b in
                 [b"<model xmlns=\"http://www.cellml.org/cellml/2.0#\" name=\"m\"><component></model>",
@@ -264,7 +294,11 @@ def make_inputs(ctx, drv, quick):
                    tokc=False, sens=None)
     inp.graphs = graphs
     inp.graph_by_dirname = {os.path.basename(inp_dir(inp, g["dir"]).rstrip("/")): g for g in graphs}
-    return inp, dict(scripts=scripts, docs=docs, res=res, ana=ana, graphs=graphs, bad_docs=bad_docs,
+    doc_of_script = {}
+    for d in docs:
+        doc_of_script.setdefault(inp.meta[d]["src"], []).append(d)
+    return inp, dict(near=near, attr1x=attr1x, onex=onex, warn_docs=warn_docs, empty_doc=empty_doc, doc_of_script=doc_of_script,
+                     scripts=scripts, docs=docs, res=res, ana=ana, graphs=graphs, bad_docs=bad_docs,
                      bad_scripts=bad_scripts, badmath=badmath, libw=libw)
 
 
@@ -482,6 +516,163 @@ class Builder:
                 c.add("flatten:%s:%s:%s" % (i0, m0, self.fresh("f")), ("F",), gf + (i0,))
         return c
 
+    # -- op(Y) then op(X) on the SAME instance, against op(X) on a FRESH instance; Y is drawn to interfere with X
+    def interfering_doc(self, x):
+        """a document Y for the document X: (category, id)"""
+        r = self.rng
+        cat = r.choice(["near", "near", "near", "onex", "onex", "attr1x", "bad", "empty", "warn", "other"])
+        if cat == "near" and self.sets["near"].get(x):
+            return cat, r.choice(self.sets["near"][x])
+        if cat == "onex":
+            return cat, r.choice(self.sets["onex"])
+        if cat == "attr1x" and self.sets["attr1x"]:
+            return cat, r.choice(self.sets["attr1x"])
+        if cat == "bad":
+            return cat, r.choice(self.sets["bad_docs"])
+        if cat == "empty":
+            return cat, self.sets["empty_doc"]
+        if cat == "warn":
+            return cat, r.choice(self.sets["warn_docs"])
+        return "other", r.choice(self.sets["docs"] + self.sets["ana"])
+
+    def interfering_model(self, c, x_doc, allow_invalid=True):
+        """puts a model Y that interferes with the document / script X into a new slot; returns (category, slot, model spec source)"""
+        r = self.rng
+        cat = r.choice(["near", "near", "near", "onex", "invalid", "null", "badmath", "other"])
+        m = self.fresh("m")
+        if cat == "near" and x_doc is not None and self.sets["near"].get(x_doc):
+            d = r.choice(self.sets["near"][x_doc])
+            c.add("parse:%s:%s:%s:ms" % (self.fresh("p"), d, m), ("P", d))
+            return cat, m
+        if cat == "onex":
+            d = r.choice(self.sets["onex"])
+            c.add("parse:%s:%s:%s:ms" % (self.fresh("q"), d, m), ("P", d))
+            return cat, m
+        if cat == "invalid" and allow_invalid:
+            c.add("build:%s:%s:ms" % (r.choice(self.sets["bad_scripts"]), m), ("O",))
+            return cat, m
+        if cat == "null":
+            return cat, "nosuchmodel"
+        if cat == "badmath":
+            c.add("build:%s:%s:ms" % (self.sets["badmath"], m), ("O",))
+            return cat, m
+        d = r.choice(self.sets["docs"] + self.sets["ana"])
+        c.add("parse:%s:%s:%s:ms" % (self.fresh("p"), d, m), ("P", d))
+        return "other", m
+
+    def x_model(self, c, pools):
+        """the input X as a model in a new slot: (slot, document id to draw near-copies from, input id)"""
+        r = self.rng
+        pool = r.choice(pools)
+        m = self.fresh("m")
+        if pool == "script":
+            s = r.choice([x for x in self.sets["scripts"] if not self.inp.meta[x].get("tokc")])
+            c.add("build:%s:%s:ms" % (s, m), ("O",))
+            ds = self.sets["doc_of_script"].get(s) or [None]
+            return m, r.choice(ds), s
+        ids = [x for x in self.sets[{"doc": "docs", "ana": "ana"}[pool]] if not self.inp.meta[x].get("tokc")]
+        d = r.choice(ids)
+        c.add("parse:%s:%s:%s:ms" % (self.fresh("p"), d, m), ("P", d))
+        return m, d, d
+
+    def interfere(self):
+        r = self.rng
+        svc = r.choice(["parse_p", "parse_q", "parse_q", "validate", "analyse", "analyse", "generate", "print", "importer",
+                        "annot_assign", "annot_ids"])
+        c = Case("interfere:" + svc, r.randrange(2))
+        c.same_instance_noise = True
+        sync = lambda: c.add("set:1", ("S", 1))       # both runs of op(X) start from the same value of libxml2's flag
+        if svc in ("parse_p", "parse_q"):
+            kind = svc[-1]
+            x = r.choice(self.sets["docs"] * 2 + self.sets["attr1x"] * 3 + self.sets["ana"] + (self.sets["onex"] if kind == "q" else []))
+            cat, y = self.interfering_doc(x)
+            pa, pb = self.fresh(kind), self.fresh(kind)
+            grp = ("strict", "parse", x)
+            mflag = ":m" if self.inp.meta[x].get("exact") else ""
+            c.add("parse:%s:%s:%s" % (pa, y, self.fresh("m")), ("P", y))
+            sync()
+            c.add("parse:%s:%s:%s%s" % (pa, x, self.fresh("m"), mflag), ("P", x), grp)
+            sync()
+            c.add("parse:%s:%s:%s%s" % (pb, x, self.fresh("m"), mflag), ("P", x), grp)
+            c.info.update(input=x, interferer=cat)
+        elif svc in ("validate", "print"):
+            mx, xdoc, x = self.x_model(c, ["script", "doc", "doc"])
+            cat, my = self.interfering_model(c, xdoc)
+            pre, ms = {"validate": ("v", "V"), "print": ("r", "R")}[svc]
+            sa, sb = self.fresh(pre), self.fresh(pre)
+            auto = ":auto" if (svc == "print" and r.random() < 0.5) else ""
+            grp = ("strict", svc, x)
+            c.add("%s:%s:%s%s" % (svc, sa, my, auto), None if my == "nosuchmodel" or cat in ("invalid", "badmath", "onex") else (ms, ("slot", my)))
+            sync()
+            c.add("%s:%s:%s%s" % (svc, sa, mx, auto), (ms, ("slot", mx)), grp)
+            sync()
+            c.add("%s:%s:%s%s" % (svc, sb, mx, auto), (ms, ("slot", mx)), grp)
+            c.info.update(input=x, interferer=cat)
+        elif svc in ("analyse", "generate"):
+            mx, xdoc, x = self.x_model(c, ["ana", "ana", "ana", "script"])
+            cat, my = self.interfering_model(c, xdoc)
+            ext = r.random() < 0.3 and my != "nosuchmodel"
+            aa, ab = self.fresh("a"), self.fresh("a")
+            ga, gb = self.fresh("g"), self.fresh("g")
+            prof = r.choice(["c", "py"])
+            oprof = r.choice(["c", "py"])
+            grp, ggrp = ("strict", "analyse", x), ("strict", "generate", x)
+            if ext:     # an external variable of the model Y: documented state, so the fresh analyser gets it too
+                c.add("extvar:%s:%s" % (aa, my), ("O",))
+                c.add("extvar:%s:%s" % (ab, my), ("O",))
+                cat += "+extvar"
+            c.add("analyse:%s:%s" % (aa, my), None if my == "nosuchmodel" or not cat.startswith(("near", "other")) else ("A", ("slot", my)))
+            if svc == "generate":
+                c.add("generate:%s:%s:%s" % (ga, aa, oprof), ("O",))
+            sync()
+            c.add("analyse:%s:%s" % (aa, mx), ("A", ("slot", mx)), grp)
+            if svc == "generate":
+                c.add("generate:%s:%s:%s" % (ga, aa, prof), ("O",), ggrp)
+            sync()
+            c.add("analyse:%s:%s" % (ab, mx), ("A", ("slot", mx)), grp)
+            if svc == "generate":
+                c.add("generate:%s:%s:%s" % (gb, ab, prof), ("O",), ggrp)
+            c.info.update(input=x, interferer=cat)
+        elif svc == "importer":
+            gx = r.choice(self.sets["graphs"])
+            same_kind = [g for g in self.sets["graphs"] if g is not gx and g["info"]["kind"] == gx["info"]["kind"]]
+            gy = r.choice(same_kind) if same_kind and r.random() < 0.7 else r.choice([g for g in self.sets["graphs"] if g is not gx])
+            kind = r.choice("ij")
+            ia, ib = self.fresh(kind), self.fresh(kind)
+            do_flat = r.random() < 0.6
+            my, m1, m2 = self.fresh("m"), self.fresh("m"), self.fresh("m")
+            gr, gf = ("strict", "resolve", gx["origin"]), ("strict", "flatten", gx["origin"])
+            c.add("parse:%s:%s:%s" % (self.fresh("p"), gy["origin"], my), ("P", gy["origin"]))
+            c.add("resolve:%s:%s:%s" % (ia, my, gy["dir"]), ("I", gy))
+            if do_flat:
+                c.add("flatten:%s:%s:%s" % (ia, my, self.fresh("f")), ("F",))
+            for imp_, m in ((ia, m1), (ib, m2)):
+                sync()
+                c.add("parse:%s:%s:%s" % (self.fresh("p"), gx["origin"], m), ("P", gx["origin"]))
+                c.add("resolve:%s:%s:%s" % (imp_, m, gx["dir"]), ("I", gx), gr)
+                if do_flat:
+                    c.add("flatten:%s:%s:%s" % (imp_, m, self.fresh("f")), ("F",), gf)
+            c.info.update(input=gx["origin"], interferer="graph:" + gy["info"]["kind"], graph=gx["info"], same_graph=gy is gx)
+        else:
+            op = svc.split("_")[1]
+            mx, xdoc, x = self.x_model(c, ["script", "doc"])
+            cat, my = self.interfering_model(c, xdoc)
+            na, nb = self.fresh("n"), self.fresh("n")
+            grp = ("strict", "annot_" + op, x)
+            if op == "assign":
+                c1, c2 = self.fresh("m"), self.fresh("m")
+                c.add("clone:%s:%s" % (mx, c1), ("O",))
+                c.add("clone:%s:%s" % (mx, c2), ("O",))
+                c.add("annot:%s:%s:assign" % (na, my), ("O",))
+                c.add("annot:%s:%s:assign" % (na, c1), ("O",), grp)
+                c.add("annot:%s:%s:assign" % (nb, c2), ("O",), grp)
+            else:
+                c.add("annot:%s:%s:ids" % (na, my), ("O",))
+                c.add("annot:%s:%s:ids" % (na, mx), ("O",), grp)
+                c.add("annot:%s:%s:ids" % (nb, mx), ("O",), grp)
+            c.info.update(input=x, interferer=cat)
+        return c
+
     def reset_case(self):
         """(bad input, good input) on one instance, then the good input on a fresh instance"""
         r = self.rng
@@ -678,8 +869,12 @@ def parse_model_line(line):
 
 
 # ------------------------------------------------------------------------------------------------ the oracle
-FIELDS = {"parse": ["H", "Hn", "I"], "print": ["T", "I"], "validate": ["I"], "analyse": ["I", "A"],
-          "generate": ["C"], "resolve": ["R", "I", "LH", "LHn"], "flatten": ["F", "Fn", "I"], "annot": ["ids", "I"]}
+FIELDS = {"parse": ["H", "Hn", "I", "LV"], "print": ["T", "I", "LV"], "validate": ["I", "LV"], "analyse": ["I", "LV", "A", "ty"],
+          "generate": ["C"], "resolve": ["R", "I", "LV", "LHn"], "flatten": ["F", "Fn", "I", "LV"],
+          "annot_ids": ["ids", "dup", "n", "I", "LV"], "annot_assign": ["ok", "H", "Hi", "I", "LV"], "annot": ["ids", "I", "LV"]}
+# same-instance / fresh-instance comparisons from the same flag value also compare the wording of the issues (hash ID)
+STRICT_EXTRA = {"parse": ["ID"], "print": ["ID"], "validate": ["ID"], "analyse": ["ID"], "flatten": ["ID"], "annot_ids": ["ID"],
+                "resolve": [], "generate": [], "annot_assign": ["ID"]}
 
 
 class Judge:
@@ -693,6 +888,8 @@ class Judge:
         self.ops = {}
         self.noises = {}
         self.classes = {}
+        self.interferers = {}
+        self.hist["interference_checks"] = 0
 
     def violation(self, what, case, detail):
         cls = re.sub(r"[0-9]+", "", what.split(":")[0])[:60]
@@ -744,10 +941,29 @@ class Judge:
         for grp, idxs in groups.items():
             self.hist["groups"] += 1
             kind = grp[0]
+            if kind == "strict":
+                # op(Y); op(X) on one instance against op(X) on a fresh instance, from the same flag value: everything equal
+                self.hist["interference_checks"] += 1
+                a, b = outs[idxs[0]][1], outs[idxs[-1]][1]
+                fields = ["R", "I", "LV"] if grp[1] == "resolve" else FIELDS[grp[1]] + STRICT_EXTRA[grp[1]]   # (the library of the used importer also holds Y's files)
+                diff = [f for f in fields if a.get(f) != b.get(f)]
+                if diff:
+                    if grp[1] == "annot_assign" and set(diff) <= {"H", "Hn"} and a.get("Hi") == b.get("Hi") and self.ctx.known_finding(
+                            "C12-annotator-id-counter",
+                            "the ids an Annotator assigns to a model depend on what the same Annotator assigned to other models before"):
+                        self.hist["annotator_counter"] = self.hist.get("annotator_counter", 0) + 1
+                        continue
+                    self.violation("%s(X) after %s(Y) on the same instance differs from %s(X) on a fresh instance: fields %s (Y: %s)" %
+                                   (grp[1], grp[1], grp[1], ",".join(diff), case.info.get("interferer")), case,
+                                   {"same_instance": {"step": case.steps[idxs[0]][0], "out": a},
+                                    "fresh_instance": {"step": case.steps[idxs[-1]][0], "out": b}})
+                cat = (case.info.get("interferer") or "?").split(":")[0]
+                self.interferers[cat] = self.interferers.get(cat, 0) + 1
+                continue
             if kind == "reset":
                 self.hist["reset_checks"] += 1
                 a, b = outs[idxs[-2]][1], outs[idxs[-1]][1]
-                if a.get("I") != b.get("I"):
+                if a.get("I") != b.get("I") or a.get("LV") != b.get("LV"):
                     self.violation("%s after a failing call on the same instance does not report the issues of the call alone" % grp[1],
                                    case, {"same_instance": a, "fresh_instance": b})
                 continue
@@ -869,9 +1085,11 @@ class Judge:
 def build_cases(ctx, inp, sets, quick):
     b = Builder(ctx.rng, inp, sets)
     cases = b.special_cases()
-    n_triples = 600 if quick else 20000
-    n_reset = 80 if quick else 1500
-    while len(cases) < n_triples:
+    n_triples = 600 if quick else 13000
+    n_reset = 80 if quick else 1000
+    n_interfere = 330 if quick else 7000
+    n0 = len(cases)
+    while len(cases) < n0 + n_triples:
         c = b.triple()
         if c is not None:
             cases.append(c)
@@ -881,6 +1099,8 @@ def build_cases(ctx, inp, sets, quick):
         if c is not None:
             cases.append(c)
             k += 1
+    for _ in range(n_interfere):
+        cases.append(b.interfere())
     return cases
 
 
@@ -1011,10 +1231,16 @@ def run(ctx):
     ctx.cov["evaluations"] = len(cases)
     ctx.cov["distinct_nontrivial"] = len(nontrivial)
     ctx.cov["rule"] = ("one case = (input X, noise call(s) N, operation op): op(X) on a fresh instance; N; op(X) on another fresh instance; "
-                       "op(X) twice on the first instance; plus (failing call, good call) pairs on one instance for the issue-list reset. "
+                       "op(X) twice on the first instance; plus (failing call, good call) pairs on one instance for the issue-list reset; "
+                       "plus same-instance interference histories for every service (Parser strict / non-strict, Validator, Analyser with and "
+                       "without external variables, Generator with another profile before, Printer, Importer, Annotator): op(Y); op(X) on one "
+                       "instance against op(X) on a fresh instance from the same flag value, Y drawn to interfere with X (near-copy with the "
+                       "same names and other definitions, CellML 1.0/1.1 document, 2.0 document with 1.x-only attributes, error / warning / "
+                       "message producing, invalid, empty, null); issues are compared with their by-level view (counts and enumerations). "
                        "non-trivial = the noise changes libxml2's flag (value read before and after it differs) or uses the same service "
                        "instance as the operation; distinct by the text of the history")
     ctx.cov["input_distribution"] = {"operations": judge.ops, "noise": judge.noises, "counters": judge.hist,
+                                     "interferers_of_same_instance_histories": judge.interferers,
                                      "inputs": {k: len(v) if isinstance(v, list) else 1 for k, v in sets.items()}}
     ctx.cov["samples"] = [cases[0].text()[:300], cases[len(cases) // 3].text()[:300], cases[-1].text()[:300]]
     ctx.cov["traces_validated_against_impl"] = judge.hist["modelled_cases"]
